@@ -197,6 +197,12 @@ func drive(args []string) int {
 	os.RemoveAll(work)
 	os.MkdirAll(work, 0755)
 	os.MkdirAll(filepath.Join(*verif, "evidence", "replays"), 0755)
+	if *replay == "" {
+		old, _ := filepath.Glob(filepath.Join(*verif, "evidence", "replays", p.ID()+"-*"))
+		for _, f := range old {
+			os.Remove(f)
+		}
+	}
 
 	env := append(os.Environ(),
 		"GOLOG_LOG_LEVEL=fatal",
@@ -429,6 +435,12 @@ func drive(args []string) int {
 	}
 	if len(unknownViol) > 0 {
 		return 1
+	}
+	if f, ok := p.(interface{ Finalize(map[string]int64) string }); ok {
+		if msg := f.Finalize(obs); msg != "" {
+			fmt.Printf("[%s] BROKEN CHECK (inconclusive run): %s\n", p.ID(), msg)
+			return 2
+		}
 	}
 	if counts[core.Held]+counts[core.Violated] == 0 || len(distinct) < 2 {
 		fmt.Printf("[%s] BROKEN CHECK: nothing conclusive was observed\n", p.ID())
